@@ -1098,6 +1098,7 @@ async fn exchange_streaming(stream: &mut TcpStream, buf: &mut Vec<u8>, raw: &[u8
                             timeout: Duration) -> Value {
     let (mut rd, mut wr) = stream.split();
     let written = std::sync::atomic::AtomicU64::new(0);
+    let client_aborts = std::sync::atomic::AtomicBool::new(false);
     let writer = async {
         if !write_segmented(&mut wr, raw, spec).await {
             return Some("write error while sending the head".to_string());
@@ -1111,6 +1112,15 @@ async fn exchange_streaming(stream: &mut TcpStream, buf: &mut Vec<u8>, raw: &[u8
         };
         let len = g.get("len").and_then(|x| x.as_u64()).unwrap_or(0);
         let seed = g.get("seed").and_then(|x| x.as_u64()).unwrap_or(0);
+        // EXTENSIONS (C15 round 3): gen_body.abort_after = n -- the client gives up after n body bytes (connection dropped by the caller)
+        let abort_after = g.get("abort_after").and_then(|x| x.as_u64());
+        let len = match abort_after {
+            Some(n) if n < len => {
+                client_aborts.store(true, Ordering::SeqCst);
+                n
+            }
+            _ => len,
+        };
         let chunk_sizes: Option<Vec<u64>> = g.get("chunk_sizes").and_then(|x| x.as_array())
             .map(|a| a.iter().map(|n| n.as_u64().unwrap_or(1).max(1)).collect());
         let block: usize = 1 << 16;
@@ -1152,6 +1162,10 @@ async fn exchange_streaming(stream: &mut TcpStream, buf: &mut Vec<u8>, raw: &[u8
                     }
                     let _ = wr.flush().await;
                 }
+                if client_aborts.load(Ordering::SeqCst) {
+                    let _ = wr.flush().await;
+                    return None;
+                }
                 if let Err(e) = wr.write_all(b"0\r\n\r\n").await {
                     return Some(format!("write error after {} body bytes: {}", sent, e));
                 }
@@ -1168,7 +1182,13 @@ async fn exchange_streaming(stream: &mut TcpStream, buf: &mut Vec<u8>, raw: &[u8
         tokio::select! {
             biased;
             r = &mut reader => break r,
-            w = &mut writer, if wres.is_none() => wres = Some(w),
+            w = &mut writer, if wres.is_none() => {
+                wres = Some(w);
+                if client_aborts.load(Ordering::SeqCst) {
+                    // the client walks away in the middle of its upload: no answer is awaited
+                    break json!({"complete": false, "status": Value::Null, "raw_b64": "", "aborted": true});
+                }
+            }
         }
     };
     resp["write_completed"] = json!(matches!(wres, Some(None)));
@@ -1330,6 +1350,9 @@ async fn run_connection(
             if reqs[i].get("gen_body").map(|g| g.is_object()).unwrap_or(false) || reqs[i].get("write_sizes").is_some() {
                 let resp = exchange_streaming(&mut stream, &mut buf, b, &reqs[i], b.starts_with(b"HEAD "), t).await;
                 let done = resp["complete"] != json!(true);
+                if resp["aborted"] == json!(true) {
+                    abandoned = true;
+                }
                 responses.push(resp);
                 if let Err(e) = run_ops(reqs[i].get("ops_after"), &shared, &env, &snaps).await {
                     out["error"] = json!(e);
